@@ -180,32 +180,61 @@ def check_single_queue(ctx, fx, cfg, r1="R01.1", r2="R01.2"):
         b = ctx.body(fx, f)
         chan_bb = calls[0][0]
         kinds = []
-        for bi, si, st in agg_sites(b, ak="closure"):
-            cdef = st["r"]["def"]
-            kind = [k for k, cf, _ in subs if cf and cf["def"] == cdef]
-            if not kind:
+
+        def end_of(o):
+            """(all roots are the one channel call, set of tuple fields of its result that reach the operand)"""
+            rs = roots(b, o)
+            good = bool(rs) and all(r.kind.startswith("call:futures_channel::mpsc::") and r.site == (chan_bb,) for r in rs)
+            # the projection (which end) is visible on the un-expanded origins
+            ends = set()
+            for r0 in b.origins(o):
+                if r0.kind == "call" and r0.site == (chan_bb,):
+                    ends.add(r0.proj[0] if r0.proj else None)
+                elif r0.kind == "call":
+                    t0 = b.call_at(r0)
+                    for r1 in (b.origins(t0["args"][0]) if t0["args"] else []):
+                        if r1.kind == "call" and r1.site == (chan_bb,):
+                            ends.add(r1.proj[0] if r1.proj else None)
+            return good, ends, rs
+
+        def closures_in(body_, resolve):
+            """submit / receive closures built in body_; resolve(operand of body_) -> (good, ends, roots) in the constructor"""
+            for bi, si, st in agg_sites(body_, ak="closure"):
+                cdef = st["r"]["def"]
+                kind = [k for k, cf, _ in subs if cf and cf["def"] == cdef]
+                if not kind:
+                    continue
+                kinds.append(kind[0])
+                for o in st["r"]["ops"]:
+                    if o["k"] not in ("copy", "move"):
+                        continue
+                    ty = body_.locals[o["p"][0]]["ty"]
+                    if "futures_channel::mpsc::" not in ty:
+                        continue
+                    want = "f1" if "Receiver<" in ty else "f0"
+                    good, ends, rs = resolve(o)
+                    ctx.require(good and ends == {want}, r2, "%s-closure:%s@%s" % (kind[0], fn_, cfg), "a submit / receive closure holds an end of a different channel (ends %s, roots %s)" % (ends, sorted(map(str, rs))), fn=fn_, site=st.get("l"), detail={"captures": ty[:70], "end": sorted(map(str, ends))})
+
+        closures_in(b, end_of)
+        # a closure may be built by a private helper of the constructor that is given the channel end as an argument
+        helpers = graph.private_helpers(fx, {fn_})
+        for hbi, ht in b.normal_calls():
+            h = fx.fn(ht.get("callee") or "")
+            if h is None or h["def"] not in helpers:
                 continue
-            kinds.append(kind[0])
-            for o in st["r"]["ops"]:
-                if o["k"] not in ("copy", "move"):
-                    continue
-                ty = b.locals[o["p"][0]]["ty"]
-                if "futures_channel::mpsc::" not in ty:
-                    continue
-                want = "f1" if "Receiver<" in ty else "f0"
-                rs = roots(b, o)
-                good = all(r.kind.startswith("call:futures_channel::mpsc::") and r.site == (chan_bb,) for r in rs)
-                # the projection (which end) is visible on the un-expanded origins
-                ends = set()
-                for r0 in b.origins(o):
-                    if r0.kind == "call" and r0.site == (chan_bb,):
-                        ends.add(r0.proj[0] if r0.proj else None)
-                    elif r0.kind == "call":
-                        t0 = b.call_at(r0)
-                        for r1 in (b.origins(t0["args"][0]) if t0["args"] else []):
-                            if r1.kind == "call" and r1.site == (chan_bb,):
-                                ends.add(r1.proj[0] if r1.proj else None)
-                ctx.require(good and ends == {want}, r2, "%s-closure:%s@%s" % (kind[0], fn_, cfg), "a submit / receive closure holds an end of a different channel (ends %s, roots %s)" % (ends, sorted(map(str, rs))), fn=fn_, site=st.get("l"), detail={"captures": ty[:70], "end": sorted(map(str, ends))})
+            hb = ctx.body(fx, h)
+
+            def via_helper(o, _hb=hb, _ht=ht):
+                hr = roots(_hb, o)
+                if not hr or not all(r.kind == "arg" and not r.proj for r in hr):
+                    return False, set(), hr
+                good, ends, rs = True, set(), set()
+                for r in hr:
+                    g2, e2, r2_ = end_of(_ht["args"][r.site - 1])
+                    good, ends, rs = good and g2, ends | e2, rs | r2_
+                return good, ends, rs
+
+            closures_in(hb, via_helper)
         ctx.require(sorted(kinds) == ["forcing", "receive", "waiting"], r2, "closure-set:%s@%s" % (fn_, cfg), "constructor must build exactly one waiting, one forcing and one receive closure, found %s" % sorted(kinds), fn=fn_, site=f["loc"])
     return ctors, subs
 
@@ -390,7 +419,8 @@ def check_cfg(ctx, fx, cfg):
                 ctx.count_nfa(wn.stats(), wps)
                 ok = not wv
             ctx.require(ok, "R01.9", inst, "the future of a waiting submission must be awaited in place on every path, or returned to the caller — not spawned, stored or dropped (stray uses: %s)" % stray, fn=f["def"], site=t["l"])
-    ctx.floor("R01.9", "waiting-submission futures (%s)" % cfg, n_wf, 12)
+    # counted by hand: 17 with a runtime (11 handle-level submissions + 2 timers + 4 broker), 11 without (timers and broker are gated)
+    ctx.floor("R01.9", "waiting-submission futures (%s)" % cfg, n_wf, 11 if cfg == "bare" else 17)
     check_payloads(ctx, fx, cfg, "R01.8")
     # R01.7 unsafe
     u = fx.d["unsafe"]
